@@ -466,8 +466,10 @@ pub fn gen(r: &mut Rng, out: &mut Out, thorough: bool, id: &mut u64) {
                 _ => gen_cert(&mut cr, out),
             };
             out.stat(&format!("kind_{}", kind), 1);
-            // D16b: `adv` (AdvData + RecoveryAdvData) is fully modelled now (Model/Codec/BleAdv.lean, BleRecovery.lean)
-            if kind != "adv" {
+            // D16b: `adv` (AdvData + RecoveryAdvData) is fully modelled now (Model/Codec/BleAdv.lean, BleRecovery.lean);
+            // the mDNS format is modelled by Model/Codec/Mdns.lean and checked against it in the `mdns2` sub-stream
+            // (c17_mdns.rs) - the `mdns` stream here stays as an additional implementation-side oracle (Display forms)
+            if kind != "adv" && kind != "mdns" {
                 out.stat(&format!("unproved_codec_{}", kind), 1);
             }
             super::emit_case(out, *id, kind, ops);
